@@ -276,6 +276,8 @@ class PVLParser(object):
                     parsing = True
                 else:
                     return m
+            except LexerError:
+                raise
             except Exception:
                 pass
 
@@ -359,6 +361,8 @@ class PVLParser(object):
                             )
                             if not keep_parsing:
                                 raise ve
+                        except LexerError:
+                            raise
                         except Exception:
                             raise ve
 
@@ -418,6 +422,8 @@ class PVLParser(object):
 
         try:
             self.parse_around_equals(tokens)
+        except LexerError:
+            raise
         except ValueError:
             tokens.throw(
                 ValueError, f'Expecting an equals sign after "{begin}" '
@@ -468,6 +474,8 @@ class PVLParser(object):
 
         try:
             self.parse_around_equals(tokens)
+        except LexerError:
+            raise
         except (ParseError, ValueError):  # No equals statement, which is fine.
             self.parse_statement_delimiter(tokens)
             return None
@@ -739,6 +747,8 @@ class PVLParser(object):
         self.parse_WSC_until(None, tokens)
         try:
             return self.parse_units(value, tokens)
+        except LexerError:
+            raise
         except (ValueError, StopIteration):
             return value
 
